@@ -86,7 +86,8 @@ def make_record(draw, case, cname, pos, kind, vi, v, order, bam_samples, info_de
     elif kind == "noalt":
         ref, alts = "A", []
     else:
-        ref, alts = draw(st.sampled_from([("A", ["T"]), ("C", ["CA"]), ("G", ["C", "T"])]))
+        # duplicates of a position: SNV, insertion, multi-ALT, MNP, and a substitution written with a padding base
+        ref, alts = draw(st.sampled_from([("A", ["T"]), ("C", ["CA"]), ("G", ["C", "T"]), ("AC", ["GT"]), ("CA", ["CG"])]))
     seq = next(c["seq"] for c in case["contigs"] if c["name"] == cname)
     if kind != "real":
         ref = seq[pos] + ref[1:] if pos < len(seq) else ref
